@@ -524,6 +524,10 @@ def enumerate_cases(tier):
         for pos in (0, 1, 2):
             for nested in (False, True):
                 cases.append({"kind": "raising-listener", "timed": timed, "pos": pos, "nested": nested})
+    # ONE event object fired more than once (a prebuilt event; an event forwarded by a second producer)
+    for timed in (False, True):
+        for second in ("same-producer", "other-producer"):
+            cases.append({"kind": "event-refired", "timed": timed, "second": second})
     # an object that is producer and listener at once and subscribes to itself (a component that reacts to its own
     # events), before / after an ordinary listener
     for first in (True, False):
@@ -538,6 +542,45 @@ def enumerate_cases(tier):
 
 _EQ_OPS = [("add", "a", 0), ("add", "b", 0), ("add", "b", 1), ("rem", "a", 0), ("rem", "b", 0),
            ("rall", "a", None), ("rall", "b", None)]
+
+
+def _run_event_refired(case, out):
+    """every firing is delivered to the listeners subscribed at that moment - whether or not the event object was
+    fired before, by this producer or by another one"""
+    pubsub, types, _m = _env()
+    T = types[0]
+    got = []
+
+    class L(pubsub.EventListener):
+        def __init__(self, idx):
+            self.idx = idx
+
+        def notify(self, event):
+            got.append([self.idx, event.content])
+    p1, p2 = pubsub.EventProducer(), pubsub.EventProducer()
+    ls = [L(i) for i in range(4)]
+    for l_ in ls[:3]:
+        p1.add_listener(T, l_)
+    p2.add_listener(T, ls[1])
+    p2.add_listener(T, ls[3])
+    ev = pubsub.TimedEvent(2.5, T, 7) if case["timed"] else pubsub.Event(T, 7)
+    fire1 = p1.fire_timed_event if case["timed"] else p1.fire_event
+    fire2 = (p2.fire_timed_event if case["timed"] else p2.fire_event) if case["second"] == "other-producer" else fire1
+    e = _guard(lambda: fire1(ev))
+    first = list(got)
+    del got[:]
+    if case["second"] == "same-producer":
+        p1.add_listener(T, ls[3])                 # subscribed in between
+    e2 = _guard(lambda: fire2(ev))
+    if e is not None or e2 is not None:
+        out.fail("delivery:raises", repr(e or e2))
+        return
+    want2 = [[0, 7], [1, 7], [2, 7], [3, 7]] if case["second"] == "same-producer" else [[1, 7], [3, 7]]
+    if first != [[0, 7], [1, 7], [2, 7]] or got != want2:
+        out.fail("delivery:missing" if len(got) < len(want2) else "delivery:order",
+                 {"one event object fired twice": case["second"], "first": first, "second": got, "want_second": want2})
+    out.nontrivial = True
+    out.label("kind=event-refired")
 
 
 def _run_self_listener(case, out):
@@ -843,6 +886,9 @@ def run_case(case):
         return out
     if case.get("kind") == "raising-listener":
         _run_raising_listener(case, out)
+        return out
+    if case.get("kind") == "event-refired":
+        _run_event_refired(case, out)
         return out
     if case.get("kind") == "self-listener":
         _run_self_listener(case, out)
